@@ -430,6 +430,29 @@ def _r1_r4(ctx, M, cg):
                 ctx.check(want == role, "R1", "gauge:%s<-pair.%s" % (role, elem), ctx.where(cb, t2["sp"]),
                           "the gauge registered as %s must be set from the %s element of the metrics pair" % (gname, role))
         ctx.floor("R1", "gauge updates from the metrics pair", n, 2)
+        # R5: the gauges are as fresh as the scrape: every exit of the refresher has run the query, and the metrics page is
+        # rendered only after the refresher
+        for cb, bb, tm in cg.callers(f):
+            if not any((callee_name(t2) or "").endswith("::set") and "prometheus" in (callee_name(t2) or "") for _, t2 in cb.calls()):
+                continue
+            ccfg = cfg_of(cb)
+            late = [r for r in ccfg.return_blocks() if not ccfg.dominates(bb, r)]
+            ctx.check(not late, "R5", "every-exit-of-the-gauge-refresher-has-run-the-query:%s" % cb.id.split("::{")[0].split("::")[-1],
+                      ctx.where(cb, tm["sp"]),
+                      "%d exit(s) of the refresher are reachable without querying the store: the gauges then keep the values of an "
+                      "earlier scrape" % len(late))
+            refresher = cb.parent if cb.kind in ("closure", "coroutine") and cb.parent in P.sigs else cb.id
+            renderers = {b2.parent if b2.kind in ("closure", "coroutine") and b2.parent in P.sigs else b2.id
+                         for b2 in P.bodies.values() for _, t2 in b2.calls() if (callee_name(t2) or "") == "prometheus::gather"}
+            m = 0
+            for rfn in sorted(renderers):
+                for ub, ubb, utm in cg.callers(rfn):
+                    m += 1
+                    ucfg = cfg_of(ub)
+                    pre = [b3 for b3, t3 in ub.calls() if callee_name(t3) == refresher]
+                    ctx.check(any(ucfg.dominates(b3, ubb) and b3 != ubb for b3 in pre), "R5", "metrics-page-rendered-after-the-gauge-refresh",
+                              ctx.where(ub, utm["sp"]), "the page must be produced only after %s ran (%d call(s) of it here)" % (refresher, len(pre)))
+            ctx.floor("R5", "renderings of the metrics page", m, 1)
 
 
 def _gauge_role(P, static_path):
